@@ -24,6 +24,7 @@ def run(project, rep):
     rep.run(S.m1_from_etree, schema, rep)
     rep.run(S.m2_update_args, schema, rep)
     rep.run(V.v_rules, schema, rep)
+    rep.run(V.v_r8_token_tables, project, rep)
     from .. import rules_types as T
     rep.run(T.t_r7, project, rep)
     rep.rule("V-R3", "absent children are None: Aggregate.__init__ sets every non-list spec attribute from the keyword of the same name, None when absent, through the descriptor (F-R2)")
